@@ -42,6 +42,9 @@ Callee(k, nm) ==
     [] k = 12 -> FunDef(nm, <<Arg("x", I2), Arg("y", I2)>>,
                         <<Assign("z", Bin("Add", Name("x"), Name("y"))), Assign("x", Bin("BitXor", Name("z"), Name("x"))),
                           Assign("y", Bin("Add", Name("x"), CI(1))), Ret(Bin("BitXor", Name("y"), Name("z")))>>, I2)
+    \* statements AFTER the return statement (never executed)
+    [] k = 14 -> FunDef(nm, <<Arg("x", TBool), Arg("y", TBool)>>,
+                        <<Ret(BoolOpN("And", <<Name("x"), Un("Not", Name("y"))>>)), Assign("z", Un("Not", Name("x"))), Assign("y", BoolOpN("Or", <<Name("z"), Name("y")>>))>>, TBool)
     \* a predicate of one argument (for equality oracles with a boolean element)
     [] k = 13 -> FunDef(nm, <<Arg("q", TTup(<<I2, TBool>>))>>,
                         <<Ret(BoolOpN("And", <<Sub(Name("q"), CI(1)), Cmp("Gt", Sub(Name("q"), CI(0)), CI(1))>>))>>, TBool)
@@ -63,7 +66,7 @@ PB(nm, fam) ==
   LET BA == BoolActuals(nm[2], nm[3])  IA == IntActuals(nm[2], nm[3])  g == nm[1] IN
   CASE fam = "bool2" ->
          {Pair(Callee(k, g), BoolSig(nm[2], nm[3]), <<Ret(CallN(g, <<x, y>>))>>, TBool, r) :
-            k \in {1, 8, 11}, x \in BA, y \in BA, r \in {"defs", "inline"}}
+            k \in {1, 8, 11, 14}, x \in BA, y \in BA, r \in {"defs", "inline"}}
     [] fam = "bool2x2" ->   \* two calls in one expression
          {Pair(Callee(1, g), BoolSig(nm[2], nm[3]),
                <<Ret(BoolOpN("Or", <<CallN(g, <<x, y>>), CallN(g, <<y, Name(nm[2])>>)>>))>>, TBool, "defs") : x \in BA, y \in BA}
@@ -106,6 +109,18 @@ PB(nm, fam) ==
                        b \in UNION {bodies(mn[1], d) : d \in disp(mn[1], mn[2])}} : mn \in {<<3, 2>>, <<2, 3>>, <<4, 2>>}}
              \cup {Pair(kin, <<Arg("k", I2), Arg(nm[2], I2)>>, <<Ret(Bin(op, CallN(g, <<x>>), Name("k")))>>, I2, "inline") :
                      op \in {"Add", "BitXor", "Mult"}, x \in {Name("k"), Name(nm[2]), CI(2)}}
+    [] fam = "redef" ->     \* one function NAME bound twice: an inline definition after a passed / an earlier inline one (Python calls
+                            \* the latest); with a call between the two definitions
+         LET bsig == BoolSig(nm[2], nm[3])  isig == IntSig(nm[2], nm[3]) IN
+         {Pair(Callee(k[1], g), bsig, <<Callee(k[2], g), Ret(CallN(g, <<x, y>>))>>, TBool, r) :
+            k \in {<<1, 11>>, <<11, 1>>, <<1, 8>>}, x \in {Name(nm[2]), Sub(Name("t"), CI(0))}, y \in {Name(nm[3]), Sub(Name("t"), CI(1))}, r \in {"defs", "inline"}}
+         \cup {Pair(Callee(k[1], g), isig, <<Callee(k[2], g), Ret(CallN(g, <<x, y>>))>>, IF k[1] = 3 THEN TBool ELSE I2, r) :
+            k \in {<<6, 12>>, <<12, 6>>, <<3, 10>>}, x \in {Name(nm[2]), Sub(Name("t"), CI(0))}, y \in {Name(nm[3]), CI(2)}, r \in {"defs", "inline"}}
+         \cup {Pair(Callee(k[1], g), bsig, <<Assign("u", CallN(g, <<Name(nm[2]), Name(nm[3])>>)), Callee(k[2], g),
+                                          Ret(Bin("BitXor", Name("u"), CallN(g, <<x, Name(nm[3])>>)))>>, TBool, r) :
+            k \in {<<1, 11>>, <<11, 1>>}, x \in {Name(nm[2]), Sub(Name("t"), CI(0))}, r \in {"defs", "inline"}}
+         \cup {Pair(Callee(2, g), isig, <<FunDef(g, <<Arg("x", I2)>>, <<Ret(Bin("Add", Name("x"), CI(2)))>>, I2), Ret(CallN(g, <<x>>))>>, I2, r) :
+            x \in {Name(nm[2]), Sub(Name("t"), CI(1))}, r \in {"defs", "inline"}}
 
 \* oraclize(g, element): the oracle  v |-> g(v) == element ; callee names include "oracle" itself
 Orac == {[callee |-> Callee(k, g), route |-> "oraclize", element |-> e,
